@@ -510,6 +510,31 @@ func ruleWALenCnt(c *Ctx) {
 		for _, b := range fn.Blocks {
 			var lastVarint *ssa.Call
 			for _, in := range b.Instrs {
+				// the same two steps written directly on the buffer: buf = binary.AppendVarint(buf, n); buf = append(buf, x...)
+				if st, isSt := in.(*ssa.Store); isSt {
+					if fa, isFA := st.Addr.(*ssa.FieldAddr); isFA && isWriteBufPtr(fa.X.Type()) {
+						if dc, isCall := st.Val.(*ssa.Call); isCall {
+							if sc := dc.Call.StaticCallee(); sc != nil && qualName(sc) == "encoding/binary.AppendVarint" {
+								lastVarint = dc
+							} else if isBuiltinCall(dc, "append") && len(dc.Call.Args) == 2 {
+								payload := dc.Call.Args[1]
+								if _, isSl := payload.(*ssa.Slice); !isSl {
+									n++
+									key := fmt.Sprintf("%s.Write/len-prefix#%d", ct.Name, n)
+									src := stripConv(payload)
+									ok2 := false
+									if lastVarint != nil {
+										if lc, isLc := stripConv(lastVarint.Call.Args[1]).(*ssa.Call); isLc && isBuiltinCall(lc, "len") && (lc.Call.Args[0] == src || lc.Call.Args[0] == payload) {
+											ok2 = true
+										}
+									}
+									c.Check(ok2, key, P.pos(st.Pos()), "the varint of len(x) immediately precedes the bytes of the same x", "the payload written is not preceded by its own length")
+								}
+							}
+						}
+					}
+					continue
+				}
 				call, ok := in.(*ssa.Call)
 				if !ok || call.Call.StaticCallee() == nil {
 					continue
